@@ -57,7 +57,8 @@ def _history():
         'await_after': st.sampled_from([0, 0, 0, 2, 30]), 'shared_param': st.sampled_from([False, False, True]),
         'stock': st.sampled_from([False, False, True]),
         # the validator is a callable OBJECT that is falsy (it has a __len__ and is 'empty'): still the validator supplied
-        'falsy': st.sampled_from([False, False, False, False, True, 'lambda', 'object', 'future', 'partial', 'wrapped'])})
+        'falsy': st.sampled_from([False, False, False, False, True, 'lambda', 'object', 'future', 'partial', 'wrapped']),
+        'send_fails': st.sampled_from([False] * 9 + [True])})
     data = st.one_of(
         st.fixed_dictionaries({'op': st.just('data'), 'name': nm, 'mode': st.sampled_from(['await', 'task', 'lp'])}),
         st.fixed_dictionaries({'op': st.just('data'), 'of': st.integers(0, 7), 'ext': st.lists(st.sampled_from(ALPHA[:2]), max_size=1),
@@ -406,7 +407,16 @@ def _run(sim, fe, ops, r):
                                          and op['vlat'] in ('0', '1ms') else 0) / 1000,
                             shared_param=op.get('shared_param', False), falsy_validator=op.get('falsy') or False,
                             # an accepting validator without latency may be the stock object the library ships
-                            validator='stock' if op.get('stock') and op['vlat'] == '0' and op['verdict'] else 'default')
+                            validator='stock' if op.get('stock') and op['vlat'] == '0' and op['verdict'] else 'default',
+                            send_fails=bool(op.get('send_fails')))
+            if op.get('send_fails'):
+                # the face refused the packet: the caller is told (the transport's own exception), nothing is pending for this
+                # Interest - everything else goes on as before (the invariants below see to that)
+                if not isinstance(h.express_error, OSError):
+                    r.bad(f'C03/{fe}/send-failure-not-reported/{type(h.express_error).__name__}', repr(h.express_error))
+                    return
+                trace.append('F')
+                continue
             if h.express_error is not None:
                 r.bad(f'C03/{fe}/express-raised/{type(h.express_error).__name__}', repr(h.express_error))
                 return
